@@ -35,8 +35,8 @@ pub fn run(ctx: &mut Ctx) {
         let mut h = Hist::start(ctx, sim, "history");
         // sometimes start near a counter boundary (byte carries, and the last admissible values)
         if ctx.rng.gen_bool(0.35) {
-            let b = [254u32, 255, 65534, 65535, 16777214, u32::MAX - 40][ctx.rng.gen_range(0..6)];
-            let b2 = [254u32, 255, 65534, 65535, 16777214, u32::MAX - 40][ctx.rng.gen_range(0..6)];
+            let b = [254u32, 255, 65534, 65535, 16777214, u32::MAX - 4000][ctx.rng.gen_range(0..6)];
+            let b2 = [254u32, 255, 65534, 65535, 16777214, u32::MAX - 4000][ctx.rng.gen_range(0..6)];
             // keep both sides of each direction in sync: (dev enc = rdr dec), (rdr enc = dev dec)
             h.set_counters(ctx, b, b2, b2, b);
         }
